@@ -12,13 +12,147 @@ import (
 // problem is one disagreement between Helm and the property.
 type problem struct {
 	Cat    string // error | enable | alias | scope | crd | install | schema | noninterference
-	Where  string // chart (dotted path through the tree) or file
-	Detail string // class of the disagreement (goes into the finding key)
+	Where  string // chart (dotted path through the tree) or file: for messages and ordering only
+	Detail string // class of the disagreement: who sees / misses what kind of value of whom
 	Msg    string
 }
 
-func (p problem) key(shape string) string {
-	return core.SanitizeKey(p.Cat + "/" + shape + "/" + p.Where + "/" + p.Detail)
+// key names the class of the failure independent of the concrete tree: the
+// roles of the charts involved (root/child/grandchild, ancestor/sibling/...),
+// the kind of value and the rule that decided.
+func (p problem) key() string { return core.SanitizeKey(p.Cat + "/" + p.Detail) }
+
+func role(n *inst) string {
+	d := 0
+	for x := n; x.parent != nil; x = x.parent {
+		d++
+	}
+	switch d {
+	case 0:
+		return "root"
+	case 1:
+		return "child"
+	case 2:
+		return "grandchild"
+	}
+	return fmt.Sprintf("depth%d", d)
+}
+
+func rootOf(n *inst) *inst {
+	for n.parent != nil {
+		n = n.parent
+	}
+	return n
+}
+
+func within(n, top *inst) bool {
+	for x := n; x != nil; x = x.parent {
+		if x == top {
+			return true
+		}
+	}
+	return false
+}
+
+// relate says what dst is to viewer.
+func relate(viewer, dst *inst) string {
+	switch {
+	case dst == viewer:
+		return "own"
+	case within(viewer, dst):
+		return "ancestor"
+	case within(dst, viewer):
+		return "descendant"
+	case dst.parent == viewer.parent:
+		return "sibling"
+	}
+	return "other-branch"
+}
+
+// resolve follows a section path from instance h; names that are no
+// dependency of the chart reached are plain data of that chart.
+func resolve(h *inst, path []string) (*inst, bool) {
+	for _, name := range path {
+		var next *inst
+		for _, k := range h.kids {
+			if k.name == name {
+				next = k
+			}
+		}
+		if next == nil {
+			return h, false
+		}
+		h = next
+	}
+	return h, true
+}
+
+// targetsOf lists the instances a section (holder, path) is destined for.
+func targetsOf(root *inst, holder string, path []string) (out []*inst) {
+	if holder == "user" {
+		t, _ := resolve(root, path)
+		return []*inst{t}
+	}
+	for _, h := range allInsts(root) {
+		if h.def.Name == holder {
+			t, _ := resolve(h, path)
+			out = append(out, t)
+		}
+	}
+	return
+}
+
+// srcRelation decodes a source-tagged value ("holder/sec.tion:leaf") and says
+// whose value it is relative to the viewer.
+func srcRelation(viewer *inst, jsonVal string) string {
+	var s string
+	if json.Unmarshal([]byte(jsonVal), &s) != nil {
+		return "switch-value"
+	}
+	i, j := strings.Index(s, "/"), strings.Index(s, ":")
+	if i < 0 || j < i {
+		return "switch-value"
+	}
+	var path []string
+	if s[i+1:j] != "" {
+		path = strings.Split(s[i+1:j], ".")
+	}
+	// a values.yaml used by several instances has several targets: name the nearest
+	best := ""
+	rank := map[string]int{"own": 0, "descendant": 1, "ancestor": 2, "sibling": 3, "other-branch": 4}
+	for _, t := range targetsOf(rootOf(viewer), s[:i], path) {
+		if r := relate(viewer, t); best == "" || rank[r] < rank[best] {
+			best = r
+		}
+	}
+	if best == "" {
+		return "nobody's"
+	}
+	return best + "'s"
+}
+
+// leafKind classifies a leaf path as seen by chart n: own key / global of
+// some nesting depth, possibly inside the section of one of its children.
+func leafKind(n *inst, leaf string) string {
+	parts := strings.Split(leaf, ".")
+	where := "own"
+	for len(parts) > 1 {
+		var next *inst
+		for _, k := range n.kids {
+			if k.name == parts[0] {
+				next = k
+			}
+		}
+		if next == nil {
+			break
+		}
+		n, parts, where = next, parts[1:], "in-child-section"
+	}
+	_ = where
+	if parts[0] == "global" {
+		return fmt.Sprintf("global-depth%d", len(parts)-1)
+	}
+	return "nonglobal"
 }
 
 func sortProblems(ps []problem) {
@@ -134,7 +268,7 @@ func compare(cs *Case, m *model, obs observed) (ps []problem) {
 		}
 		dir := f[:strings.Index(f, "/templates/")]
 		if n, ok := byPath[dir]; ok {
-			ps = append(ps, problem{"enable", n.dotted(), "rendered-though-disabled/" + m.reason[firstOff(m, n)] + "/" + depSig(firstOff(m, n).dep),
+			ps = append(ps, problem{"enable", n.dotted(), "rendered-though-disabled/" + role(n) + "/" + m.reason[firstOff(m, n)] + "/" + depSig(firstOff(m, n).dep),
 				fmt.Sprintf("template %s was rendered but dependency %s is disabled (%s)", f, firstOff(m, n).dotted(), m.reason[firstOff(m, n)])})
 		} else {
 			ps = append(ps, problem{"alias", dir, "unexpected-path", fmt.Sprintf("template %s was rendered under a path no dependency goes by", f)})
@@ -142,7 +276,7 @@ func compare(cs *Case, m *model, obs observed) (ps []problem) {
 	}
 	for f, n := range wantFiles {
 		if !got[f] {
-			ps = append(ps, problem{"enable", n.dotted(), "missing-though-enabled/" + reasonOf(m, n) + "/" + sigOf(n),
+			ps = append(ps, problem{"enable", n.dotted(), "missing-though-enabled/" + role(n) + "/" + reasonOf(m, n) + "/" + sigOf(n),
 				fmt.Sprintf("template %s is missing but %s is enabled (%s)", f, n.dotted(), reasonOf(m, n))})
 		}
 	}
@@ -156,7 +290,7 @@ func compare(cs *Case, m *model, obs observed) (ps []problem) {
 		}
 		pr := obs.Probes[f]
 		if pr.Chart != n.name {
-			ps = append(ps, problem{"alias", n.dotted(), "chart-name", fmt.Sprintf("%s: .Chart.Name is %q, the dependency goes by %q", f, pr.Chart, n.name)})
+			ps = append(ps, problem{"alias", n.dotted(), "chart-name/" + role(n), fmt.Sprintf("%s: .Chart.Name is %q, the dependency goes by %q", f, pr.Chart, n.name)})
 		}
 		want := pruneEmpty(copyMap(m.views[n]))
 		gl, wl := map[string]string{}, map[string]string{}
@@ -166,29 +300,18 @@ func compare(cs *Case, m *model, obs observed) (ps []problem) {
 			wv, ok := wl[leaf]
 			switch {
 			case !ok:
-				ps = append(ps, problem{"scope", n.dotted(), "sees-foreign/" + leafClass(n, leaf), fmt.Sprintf("%s sees %s=%s which is not destined for it (expected .Values %s)", n.dotted(), leaf, gv, js(want))})
+				ps = append(ps, problem{"scope", n.dotted(), "sees-foreign/" + leafKind(n, leaf) + "/" + srcRelation(n, gv), fmt.Sprintf("%s sees %s=%s which is not destined for it (expected .Values %s)", n.dotted(), leaf, gv, js(want))})
 			case wv != gv:
-				ps = append(ps, problem{"scope", n.dotted(), "wrong-value/" + leafClass(n, leaf), fmt.Sprintf("%s sees %s=%s, must be %s (expected .Values %s)", n.dotted(), leaf, gv, wv, js(want))})
+				ps = append(ps, problem{"scope", n.dotted(), "wrong-value/" + leafKind(n, leaf) + "/" + srcRelation(n, gv) + "-instead-of-" + srcRelation(n, wv), fmt.Sprintf("%s sees %s=%s, must be %s (expected .Values %s)", n.dotted(), leaf, gv, wv, js(want))})
 			}
 		}
 		for leaf, wv := range wl {
 			if _, ok := gl[leaf]; !ok {
-				ps = append(ps, problem{"scope", n.dotted(), "lost/" + leafClass(n, leaf), fmt.Sprintf("%s does not see %s=%s (got .Values %s)", n.dotted(), leaf, wv, js(pr.Values))})
+				ps = append(ps, problem{"scope", n.dotted(), "lost/" + leafKind(n, leaf) + "/" + srcRelation(n, wv), fmt.Sprintf("%s does not see %s=%s (got .Values %s)", n.dotted(), leaf, wv, js(pr.Values))})
 			}
 		}
 	}
 	return ps
-}
-
-// leafClass names a leaf relative to the chart that sees it: own key, a global, or inside a child's section.
-func leafClass(n *inst, leaf string) string {
-	first := strings.SplitN(leaf, ".", 2)[0]
-	for _, k := range n.kids {
-		if k.name == first {
-			return "in-" + leafClass(k, strings.TrimPrefix(leaf, first+"."))
-		}
-	}
-	return leaf
 }
 
 func js(v any) string { b, _ := json.Marshal(v); return string(b) }
@@ -292,7 +415,7 @@ func interference(base, variant *Case, dotted string, ob, ov observed) (ps []pro
 		pb, okb := ob.Probes[f]
 		pv, okv := ov.Probes[f]
 		if okb != okv {
-			ps = append(ps, problem{"noninterference", n.dotted(), "presence-changed-by/" + dotted, fmt.Sprintf("%s is rendered in one run and not in the other although only values for %s differ", f, dotted)})
+			ps = append(ps, problem{"noninterference", n.dotted(), "presence-changed/by-values-of-" + relate(n, target), fmt.Sprintf("%s is rendered in one run and not in the other although only values for %s differ", f, dotted)})
 			continue
 		}
 		if !okb {
@@ -308,7 +431,7 @@ func interference(base, variant *Case, dotted string, ob, ov observed) (ps []pro
 			delPath(vv, rel)
 		}
 		if js(vb) != js(vv) {
-			ps = append(ps, problem{"noninterference", n.dotted(), "values-changed-by/" + dotted,
+			ps = append(ps, problem{"noninterference", n.dotted(), "values-changed/by-values-of-" + relate(n, target),
 				fmt.Sprintf("%s sees %s in one run and %s in the other although only values destined for %s differ", n.dotted(), js(vb), js(vv), dotted)})
 		}
 	}
@@ -318,9 +441,9 @@ func interference(base, variant *Case, dotted string, ob, ov observed) (ps []pro
 
 // ---------- minimisation ----------
 
-func hasCat(ps []problem, cat string) *problem {
+func hasKey(ps []problem, key string) *problem {
 	for i := range ps {
-		if ps[i].Cat == cat {
+		if ps[i].key() == key {
 			return &ps[i]
 		}
 	}
@@ -432,16 +555,16 @@ func shrinks(cs *Case) []*Case {
 	return out
 }
 
-// minimise greedily simplifies a failing case while it keeps failing in the
-// same category, so that finding keys name only what matters.
-func minimise(cs *Case, cat string) *Case {
+// minimise greedily simplifies a failing case while it keeps failing with the
+// same key, so that finding keys name only what matters.
+func minimise(cs *Case, key string) *Case {
 	cur := cs
 	for pass := 0; pass < 4; pass++ {
 		changed := false
 		cands := shrinks(cur)
 		for i := 0; i < len(cands); {
 			ps, _, _ := judge(cands[i])
-			if hasCat(ps, cat) != nil {
+			if hasKey(ps, key) != nil {
 				cur, changed = cands[i], true
 				cands = shrinks(cur) // the list lost (about) one entry: keep i
 				continue
